@@ -58,19 +58,32 @@ def run():
     rep.phase("model_check")
     jobs = drv.plan(t)
     d = workdir("traces/c15")
-    parts = drv.split_jobs(jobs, 16)
-    args = [(p, os.path.join(d, f"s{i:02d}.ndjson")) for i, p in enumerate(parts)]
-    with mp.Pool(len(args)) as pool:
-        asyncs = [pool.apply_async(drv.worker, (a,)) for a in args]
-        try:
-            out = [a.get(timeout=1500 if t == "quick" else 6000) for a in asyncs]
-        except mp.TimeoutError as ex:
-            raise MachineryError("a driver process did not return (a call that cannot be interrupted by the watchdog signal)") from ex
-    nsc, npts, nev = (sum(o[k] for o in out) for k in range(3))
-    cpus = {}
-    for o in out:
-        for k, v in o[3].items():
-            cpus[k] = cpus.get(k, 0) + v
+    jobs_sorted = sorted(jobs, key=drv.job_cost, reverse=True)
+    shards = [open(os.path.join(d, f"s{i:02d}.ndjson"), "w") for i in range(16)]
+    size = [0] * 16
+    nsc = npts = nev = 0
+    cpus, cpu_s = {}, 0.0
+    with mp.Pool(16, maxtasksperchild=40) as pool:
+        it = pool.imap_unordered(drv.worker, jobs_sorted, chunksize=1)
+        for _ in range(len(jobs_sorted)):
+            try:
+                line, a, b, c, cc, cs = it.next(timeout=900 if t == "quick" else 3600)
+            except mp.TimeoutError as ex:
+                raise MachineryError("a driver process did not return (a call that the watchdog signal cannot interrupt)") from ex
+            cpu_s += cs
+            if line is None:
+                continue
+            k = size.index(min(size))
+            shards[k].write(line + "\n")
+            size[k] += len(line)
+            nsc, npts, nev = nsc + a, npts + b, nev + c
+            cpus[cc] = cpus.get(cc, 0) + 1
+    for f in shards:
+        f.close()
+    for i in range(16):
+        if size[i] == 0:
+            os.remove(os.path.join(d, f"s{i:02d}.ndjson"))
+    rep.set("driver_cpu_s", round(cpu_s))
     rep.phase("drive")
     files = sorted(glob.glob(os.path.join(d, "*.ndjson")))
     n, rejects, infos = tlc.validate("TV_Finite", "TV.cfg", files)
@@ -113,7 +126,7 @@ def run():
         if sc["pts"]:
             q = sc["pts"][len(sc["pts"]) // 2]
             rep.sample({"class": sc["body"]["cls"], "kind": sc["kind"], "iface": sc["iface"], "scale": sc["scale"], "point": q.get("o", q.get("m")), "finite_masks": q["f"][:6], "variant_kinds": sc["vk"][:6]})
-    rep.assume("termination is OBSERVED under a watchdog (CPU-time interval timer per call: 3 s quick / 10 s thorough for a whole-box call, then 0.25 s per observer to locate the call that does not return), not proved: the convergence loops of cel/cel_iter/el3 are data-dependent numerics outside TLA+")
+    rep.assume("termination is OBSERVED under a watchdog (CPU-time interval timer per call: 2 s quick / 10 s thorough for a whole-box call, then 0.25 s per observer to locate the call that does not return), not proved: the convergence loops of cel/cel_iter/el3 are data-dependent numerics outside TLA+")
     rep.assume("TLC, SANY and the JSON module are trusted; np.isfinite and np.shape in the driver are trusted measurement code")
     rep.assume("documented singular points = Physics!Singular: dipole position (dipole_Hfield docstring), vertices of Triangle / Tetrahedron / TriangularMesh (triangle_Bfield docstring); degenerate Triangle (collinear) and Tetrahedron (coplanar) are not valid bodies per the documentation and are judged under C17")
     rep.assume("observers are lattice points (and their ulp / eps / near variants, rotated and scaled images); other observers are not explored")
